@@ -114,7 +114,7 @@ class MediaRequestBase(RequestHandlerBase):
         atom = self.load_fragment(media, 0, options)
         if representation.encrypted:
             keys = models.Key.get_kids(representation.kids)
-            drms = DrmContext(current_stream, keys, options)
+            drms = DrmContext(media.stream, keys, options)
             for drm in drms:
                 if drm.moov is not None:
                     pssh = drm.moov(representation.default_kid)
